@@ -356,6 +356,9 @@ impl Property for C16 {
     fn required_classes(&self) -> Vec<&'static str> {
         vec!["uncorrupted", "corrupted-generated", "corrupted-fixture", "load:ok", "load:err", "bidirectional-inferred", "pin-labelled-x_out-next-to-input-x", "header-names-outside-the-circuit", "corruption-still-loads", "strict-document", "duplicate-test-label"]
     }
+    fn check_raw(&self, _kind: &str, data: &[u8]) -> Option<(String, String)> {
+        crate::fuzzglue::dig_bytes_kv(data)
+    }
     fn fuzz_targets(&self) -> Vec<&'static str> {
         vec!["dig_bytes"]
     }
